@@ -25,9 +25,7 @@ class C02(ContCheck):
               'get-after-insert_at, conservation (stored + handed-back elements are a permutation of the inserted ones, hence no '
               'element is duplicated or lost). The real classes array, linked_list, dlinked_list are tied to this spec by running '
               'the extracted spec and the ASan build on the same histories (return values + full read-back through get(i), '
-              'i in -len-1..len, and a fresh iterator after every operation); every divergence is a failing input. The '
-              'pointer-level models of the three .c files and their refinement proofs (links, memory frame) are stage 2 and '
-              'not yet part of this claim: memory safety of the classes is decided by the sanitizer run only.'
+              'i in -len-1..len, and a fresh iterator after every operation); every divergence is a failing input.'
               " Stage 2 (in Properties/C02_array.v, C02_linked_list.v, C02_dlinked_list.v, C02_interchangeable.v): pointer-level Gallina models of array.c (items block of exactly len slots, REALLOC/memmove bounds-checked), linked_list.c and dlinked_list.c (node store with use-after-free faults, head/tail/prev/next updates as written, traversals on fuel) are proved to REFINE the ideal sequence for every history of all 15 list operations incl. dup and iterators: never a Fault, outputs equal, and the representation predicate holds afterwards (array: items = the sequence; linked: the next chain from head spells it and no other node is live; dlinked: additionally the prev chain from tail spells the reverse), hence no link corruption, no leak of nodes on deletion, and the three classes are interchangeable (corollary C02_classes_interchangeable). Preconditions: lengths <= INT_MAX; ordered `insert` not issued with the head's key (the classes place equal keys differently; ContSpec documents it). Each class model is tied to its .c file by comparing return values, read-back AND the structure dump (items[], next walk, prev walk from tail) with the ASan build on every generated history. Decided only by the correspondence check: that the models mirror the C text, lifetime of the element objects, identity of dup'ed objects."),
         design_ref='DESIGN.md section 7, C02')
 
